@@ -4,9 +4,9 @@ From Coq Require Import String.
 From RV Require Import Results.Model Results.Proofs Results.ProofsXml Results.ProofsTsv Results.ProofsTsvDoc Results.ProofsCsv.
 Local Open Scope N_scope.
 
-Lemma json_ok : forall c, wf c = true -> c_fmt c = FJson -> spec_ok c (model_obs c) = true.
+Lemma json_ok : forall c, wf c = true -> c_fmt c = FJson -> spec_ok c (format_obs c) = true.
 Proof.
-  intros c Hwf Hf. unfold spec_ok, model_obs. rewrite Hf.
+  intros c Hwf Hf. unfold spec_ok, format_obs. rewrite Hf.
   unfold wf in Hwf. apply andb_true_iff in Hwf. destruct Hwf as [Hwf _].
   apply andb_true_iff in Hwf. destruct Hwf as [Hnd Hrows]. apply andb_true_iff in Hnd. destruct Hnd as [_ Hnm].
   destruct (c_ask c) as [b|].
@@ -15,7 +15,7 @@ Proof.
     unfold spec_select. rewrite list_eqb_refl by apply str_eqb_refl. simpl. apply rows_ok_bound_of. auto.
 Qed.
 
-Theorem spec_ok_model : forall c, wf c = true -> spec_ok c (model_obs c) = true.
+Theorem format_ok : forall c, wf c = true -> spec_ok c (format_obs c) = true.
 Proof.
   intros c Hwf. destruct (c_fmt c) eqn:E.
   - apply json_ok; auto.
@@ -23,6 +23,26 @@ Proof.
   - apply tsv_ok; auto.
   - apply csv_cells_ok; auto.
   - apply csvp_ok; auto.
+Qed.
+
+Lemma consume_id : forall rows k, (let '(a, b) := consume k rows in a ++ b) = rows.
+Proof.
+  induction rows as [|r rest IH]; intro k; [reflexivity|].
+  destruct k as [|k']; [reflexivity|]. cbn [consume].
+  specialize (IH (if is_nil r then S k' else k')). destruct (consume (if is_nil r then S k' else k') rest) as [a b].
+  cbn [app]. now rewrite IH.
+Qed.
+
+Lemma with_rows_id : forall c, with_rows c (c_rows c) = c.
+Proof. intros []. reflexivity. Qed.
+
+(* the Result object hands the formats the rows it was given, however far it was iterated before *)
+Theorem result_rows_kept : forall c, result_rows c = c_rows c.
+Proof. intros c. unfold result_rows. apply consume_id. Qed.
+
+Theorem spec_ok_model : forall c, wf c = true -> spec_ok c (model_obs c) = true.
+Proof.
+  intros c Hwf. unfold model_obs. rewrite (result_rows_kept c), with_rows_id. apply format_ok. exact Hwf.
 Qed.
 
 (* ------------------------------------------------------------------ *)
@@ -147,13 +167,13 @@ Definition st0 : style := {| st_sq := false; st_esc_all := false; st_bare := fal
 Definition vx : str := [120].
 Definition iri_a : term := IRI (s2l "http://e/a"%string).
 Definition mk (f : fmt) (rows : list row) (st : style) : case :=
-  {| c_fmt := f; c_ask := None; c_vars := [vx]; c_rows := rows; c_style := st; c_bytes := true; c_src := 1 |}.
+  {| c_fmt := f; c_ask := None; c_vars := [vx]; c_rows := rows; c_style := st; c_bytes := true; c_src := 1; c_pre := 0 |}.
 
 (* all of these were violations once; they are accepted since the repairs (notes/C16.md) *)
 Definition w_F11a := mk FTsv [[(vx, Some iri_a)]; []; [(vx, Some iri_a)]] st0.
 Definition w_F11a2 : case :=
   {| c_fmt := FTsv; c_ask := None; c_vars := [vx; [121]]; c_rows := [[(vx, Some iri_a)]; []; [([121], Some iri_a)]];
-     c_style := st0; c_bytes := true; c_src := 1 |}.
+     c_style := st0; c_bytes := true; c_src := 1; c_pre := 0 |}.
 Definition w_F11b := mk FXml [[(vx, Some (Lit [97; 1; 98] None None))]] st0.
 Definition w_F11c := mk FXml [[(vx, Some (Lit [97; 13; 98; 13; 10] None None))]] st0.
 Definition w_F11d_iri := mk FXml [[(vx, Some (IRI []))]] st0.
@@ -164,32 +184,65 @@ Definition w_F11f := mk FTsv [[(vx, Some (Lit [105; 116; 39; 115] None None))]]
 Definition w_F11g := mk FXml [[(vx, Some (Lit [48] (Some xsd_integer) None))]] st0.
 Definition w_F11h : case :=
   {| c_fmt := FTsv; c_ask := None; c_vars := [vx; [121; 5760]];
-     c_rows := [[(vx, Some iri_a); ([121; 5760], Some iri_a)]]; c_style := st0; c_bytes := true; c_src := 1 |}.
+     c_rows := [[(vx, Some iri_a); ([121; 5760], Some iri_a)]]; c_style := st0; c_bytes := true; c_src := 1; c_pre := 0 |}.
 
 Lemma repaired :
-  (wf w_F11a = true /\ model_obs w_F11a = OSel [vx] [[(vx, iri_a)]; []; [(vx, iri_a)]])
-  /\ (wf w_F11a2 = true /\ model_obs w_F11a2 = OSel [vx; [121]] [[(vx, iri_a)]; []; [([121], iri_a)]])
-  /\ (wf w_F11b = true /\ xml_expressible w_F11b = false /\ model_obs w_F11b = ORefused)
-  /\ (wf w_F11c = true /\ model_obs w_F11c = OSel [vx] [[(vx, Lit [97; 13; 98; 13; 10] None None)]])
-  /\ (wf w_F11d_iri = true /\ model_obs w_F11d_iri = OSel [vx] [[(vx, IRI [])]])
-  /\ (wf w_F11d = true /\ model_obs w_F11d = OSel [vx] [[(vx, Lit [118] (Some []) None)]])
-  /\ (wf w_F11e = true /\ model_obs w_F11e = OSel [vx] [[(vx, Lit [97; 8232; 98] None None)]])
-  /\ (wf w_F11f = true /\ model_obs w_F11f = OSel [vx] [[(vx, Lit [105; 116; 39; 115] None None)]])
-  /\ (wf w_F11g = true /\ model_obs w_F11g = OSel [vx] [[(vx, Lit [48] (Some xsd_integer) None)]])
-  /\ (wf w_F11h = true /\ model_obs w_F11h = OSel [vx; [121; 5760]] [[(vx, iri_a); ([121; 5760], iri_a)]]).
+  (wf w_F11a = true /\ format_obs w_F11a = OSel [vx] [[(vx, iri_a)]; []; [(vx, iri_a)]])
+  /\ (wf w_F11a2 = true /\ format_obs w_F11a2 = OSel [vx; [121]] [[(vx, iri_a)]; []; [([121], iri_a)]])
+  /\ (wf w_F11b = true /\ xml_expressible w_F11b = false /\ format_obs w_F11b = ORefused)
+  /\ (wf w_F11c = true /\ format_obs w_F11c = OSel [vx] [[(vx, Lit [97; 13; 98; 13; 10] None None)]])
+  /\ (wf w_F11d_iri = true /\ format_obs w_F11d_iri = OSel [vx] [[(vx, IRI [])]])
+  /\ (wf w_F11d = true /\ format_obs w_F11d = OSel [vx] [[(vx, Lit [118] (Some []) None)]])
+  /\ (wf w_F11e = true /\ format_obs w_F11e = OSel [vx] [[(vx, Lit [97; 8232; 98] None None)]])
+  /\ (wf w_F11f = true /\ format_obs w_F11f = OSel [vx] [[(vx, Lit [105; 116; 39; 115] None None)]])
+  /\ (wf w_F11g = true /\ format_obs w_F11g = OSel [vx] [[(vx, Lit [48] (Some xsd_integer) None)]])
+  /\ (wf w_F11h = true /\ format_obs w_F11h = OSel [vx; [121; 5760]] [[(vx, iri_a); ([121; 5760], iri_a)]]).
 Proof. vm_compute. repeat split. Qed.
 
 (* F11i, repaired by 60d20593: the case is accepted now; with the lines cut as the codecs reader cut
    them (LSplit) the unquoted field with a form feed is split and a row appears *)
 Definition w_F11i : case :=
   {| c_fmt := FCsvP; c_ask := None; c_vars := [vx];
-     c_rows := [[(vx, Some (Lit [97; 12; 98] None None))]; [(vx, Some iri_a)]]; c_style := st0; c_bytes := true; c_src := 0 |}.
+     c_rows := [[(vx, Some (Lit [97; 12; 98] None None))]; [(vx, Some iri_a)]]; c_style := st0; c_bytes := true; c_src := 0; c_pre := 0 |}.
 
 Lemma csv_bytes_prefix_refuted :
-  (wf w_F11i = true /\ spec_ok w_F11i (model_obs w_F11i) = true
-   /\ model_obs w_F11i = OSel [vx] [[(vx, Lit [97; 12; 98] None None)]; [(vx, iri_a)]])
+  (wf w_F11i = true /\ spec_ok w_F11i (format_obs w_F11i) = true
+   /\ format_obs w_F11i = OSel [vx] [[(vx, Lit [97; 12; 98] None None)]; [(vx, iri_a)]])
   /\ csv_parse LSplit (csv_text (csv_serialize (c_vars w_F11i) (c_rows w_F11i)))
      = OSel [vx] [[(vx, Lit [97; 12] None None)]; [(vx, Lit [98] None None)]; [(vx, iri_a)]].
+Proof. vm_compute. repeat split. Qed.
+
+(* F11j, repaired by ef926fa5: a query result iterated once before it is serialised keeps the solution
+   without bindings that came first; what the iteration before the repair left over is consume_prefix *)
+Definition w_F11j : case :=
+  {| c_fmt := FJson; c_ask := None; c_vars := [vx];
+     c_rows := [[]; [(vx, Some iri_a)]; []; [(vx, Some iri_a)]]; c_style := st0; c_bytes := true; c_src := 1; c_pre := 1 |}.
+
+Fixpoint consume_prefix (k : nat) (rows : list row) : list row * list row :=
+  match rows with
+  | [] => ([], [])
+  | r :: rest =>
+      match k with
+      | O => ([], rows)
+      | S k' => if is_nil r then consume_prefix k rest
+                else let '(a, b) := consume_prefix k' rest in (r :: a, b)
+      end
+  end.
+
+Lemma partial_iteration_prefix_refuted :
+  (wf w_F11j = true /\ spec_ok w_F11j (model_obs w_F11j) = true)
+  /\ (let '(a, b) := consume_prefix 1 (c_rows w_F11j) in a ++ b) = [[(vx, Some iri_a)]; []; [(vx, Some iri_a)]].
+Proof. vm_compute. repeat split. Qed.
+
+(* F11k, repaired by 53a005c9: the bare negative decimal is read *)
+Definition w_F11k : case :=
+  {| c_fmt := FTsv; c_ask := None; c_vars := [vx];
+     c_rows := [[(vx, Some (Lit [45; 49; 46; 53] (Some xsd_decimal) None))]];
+     c_style := {| st_sq := false; st_esc_all := false; st_bare := true; st_cross := false |};
+     c_bytes := true; c_src := 1; c_pre := 0 |}.
+Lemma neg_decimal_read :
+  wf w_F11k = true /\ render_doc (c_style w_F11k) [vx] (c_rows w_F11k) = [63; 120; 10; 45; 49; 46; 53; 10]
+  /\ model_obs w_F11k = OSel [vx] [[(vx, Lit [45; 49; 46; 53] (Some xsd_decimal) None)]].
 Proof. vm_compute. repeat split. Qed.
 
 (* historical behaviour kept in the model: the row loop before 40b19e31 drops the row with nothing
